@@ -1,5 +1,5 @@
 (* C11 — Saving a model to .ode and loading it back preserves the model. *)
-From GX Require Import Base Expr Topo Ode Target Sem Codegen Load Save Perm Annot LoadPerm SaveLoad Parse ParseItems Lex.
+From GX Require Import Base Expr Topo Ode Target Sem Codegen Load Save Perm Annot LoadPerm SaveLoad Parse ParseItems Lex Line.
 From Coq Require Import Permutation.
 Open Scope string_scope.
 Open Scope list_scope.
@@ -142,3 +142,12 @@ Theorem C11_the_text_written_for_a_token_sequence_is_lexed_back_to_it :
   forall ts s, render_tokens ts = Some s -> lex s = Some ts.
 Proof. exact render_tokens_lex. Qed.
 Print Assumptions C11_the_text_written_for_a_token_sequence_is_lexed_back_to_it.
+
+(* one assignment line: what Line.write_line writes for a name, a writable expression and any comment is read back
+   (cut at "#", cut at "=", lexer, parser) as exactly that triple *)
+Theorem C11_a_written_assignment_line_is_read_back :
+  forall x e cm s, good_id x = true -> is_keyword x = false -> writable e ->
+    write_line x e cm = Some s -> parse_line s = Some (x, e, cm).
+Proof. exact parse_written_line. Qed.
+Print Assumptions C11_a_written_assignment_line_is_read_back.
+
